@@ -48,6 +48,7 @@ def gen_cases(tier, seed):
                 p = S.draw_params(rng, fam, S.RANGE)
             other = S.draw_params(rng, fam, S.RANGE)
             cases.append({"fam": fam, "params": p, "other": other, "sub": int(rng.integers(1 << 30))})
+    cases.append({"repo_tests": ["tests/test_distributions.py", "tests/comparison-to-virocon-v1/test_distributions.py"], "cost": 20})
     return cases
 
 
@@ -68,6 +69,12 @@ def _nan_equal(a, b):
 
 
 def run_case(case, ctx):
+    if "repo_tests" in case:
+        from .. import repotests
+
+        ctx.cls("family", "repository-tests")
+        repotests.run(ctx, case["repo_tests"])
+        return
     fam, p = case["fam"], case["params"]
     rng = np.random.default_rng(case["sub"])
     ctx.cls("family", fam)
